@@ -380,6 +380,7 @@ def _gen_worker(job):
     queries, li, fams = g["queries"], g["li"], g["fams"]
     out = {"n": 0, "true": 0, "problems": [], "drift": [], "drift_n": 0, "sib": 0, "samples": []}
     hcache = g.setdefault("hcache", {})
+    batches = {}
     for tid in tids:
         tr = g["trees"][tid]
         rng = random.Random(seed * 1000003 + tid)
@@ -463,10 +464,38 @@ def _gen_worker(job):
                     for i, (c, e) in enumerate(zip(code2, g["trees"][t2]["res"])):
                         if c != e and queries[i]["op"] not in ATOM_OPS:
                             out["drift_n"] += 1
+        batches.setdefault(fi, []).append((s, list(code)))
         if len(out["samples"]) < 2 and tr["n"] >= 3 and any(exp):
             i = exp.index(True, len(exp) // 2) if True in exp[len(exp) // 2:] else exp.index(True)
             out["samples"].append({"annotation": s, "query": texts[i], "model": exp[i], "code": code[i]})
         out["problems"] = out["problems"][:40]
+    # the batch interface: many annotations (with None / empty entries in between) against the same handlers at once must give,
+    # row by row, what the single searches gave
+    from hed import HedString
+    from hed.models.query_service import search_hed_objs
+    for fi, items in batches.items():
+        texts, handlers, bad, handlers2 = hcache[fi]
+        if bad:
+            continue
+        objs, want = [], []
+        for j, (s, code) in enumerate(items[:60]):
+            if j % 2 == 0:
+                objs.append(None if j % 4 == 0 else HedString("", _schema()))
+                want.append([0] * len(handlers))
+            objs.append(HedString(s, _schema()))
+            # (an annotation without any tag is an "empty entry": documented to give 0 for every query)
+            want.append([int(bool(c)) for c in code] if objs[-1] else [0] * len(handlers))
+        try:
+            df = search_hed_objs(objs, handlers, ["q%d" % k for k in range(len(handlers))])
+            got = [[int(x) for x in row] for row in df.values.tolist()]
+        except Exception as ex:  # noqa
+            got = "raised %s: %s" % (type(ex).__name__, ex)
+        if got != want:
+            k = next((i for i in range(len(want)) if not isinstance(got, list) or i >= len(got) or got[i] != want[i]), 0)
+            out["problems"].append(("batch-differs", "search_hed_objs over %d annotations (None / empty entries in between): row %d (%r) is %s, "
+                                    "the single searches gave %s" % (len(objs), k, str(objs[k]) if objs[k] is not None else None,
+                                                                     got[k] if isinstance(got, list) and k < len(got) else got, want[k]),
+                                    {"kind": "batch", "hed": [str(o) if o is not None else None for o in objs], "queries": list(texts), "schema": SCHEMA_VERSION}))
     return out
 
 
